@@ -82,7 +82,7 @@ for sd in sorted(glob.glob(os.path.join(out, "C*-*"))):
     meta = {
         "property": prop, "breaks": am.get("breaks"), "needs_to_manifest": am.get("needs_to_manifest"), "files_touched": am.get("files_touched"),
         "demo": {"placement": place, "cmd": cmd.strip()},
-        "origin": "independent sub-agent (eighth round: style rewrites hiding one difference) given only the property text and a scratch worktree (nothing from /verif)",
+        "origin": "independent sub-agent (%s) given only the property text and a scratch worktree (nothing from /verif)" % os.environ.get("SEED_ROUND", "eighth round: style rewrites hiding one difference"),
         "confirmed_by_me": {"ran": ["git apply patch.diff in a scratch worktree of /repo HEAD", "cargo test --workspace --offline (existing suite, no demo present)",
                                     "the demo with the change", "git checkout -- . ; the same demo without the change", "all 18 quick checks on a patched scratch copy"], **res},
         "checks_fired_at_first_contact": fired, "target_check_fired_at_first_contact": prop in fired,
